@@ -553,6 +553,29 @@ class AutoImport:
             modname = self._resource_to_module(resource).modname
             self._del_if_exist(modname)
             self.update_resource(newresource)
+        else:
+            self._del_package_if_exist(self._resource_to_module(resource).modname)
+            for file in self._python_files_in(newresource):
+                self.update_resource(file)
+
+    def _del_package_if_exist(self, package_name, commit: bool = True):
+        escaped = package_name
+        for special in "\\%_":
+            escaped = escaped.replace(special, "\\" + special)
+        self._execute(
+            models.Name.delete_by_package_prefix, (package_name, escaped + ".%")
+        )
+        if commit:
+            self.connection.commit()
+
+    def _python_files_in(self, folder: Resource):
+        if not folder.exists():
+            return
+        for child in folder.get_children():
+            if child.is_folder():
+                yield from self._python_files_in(child)
+            elif child.name.endswith(".py"):
+                yield child
 
     def _del_if_exist(self, module_name, commit: bool = True):
         self._execute(models.Name.delete_by_module_name, (module_name,))
@@ -608,6 +631,8 @@ class AutoImport:
         if not resource.is_folder():
             modname = self._resource_to_module(resource).modname
             self._del_if_exist(modname)
+        else:
+            self._del_package_if_exist(self._resource_to_module(resource).modname)
 
     @staticmethod
     def _convert_name(name: Name) -> tuple:
